@@ -202,8 +202,23 @@ func TestHealthyNoDuplicates(t *testing.T) {
 					// classify the regime: a later-positioned instance waits position x peer_timeout between freezing
 					// its batch and consulting the log; if the group is flushed more often than that, position 0 can
 					// report a CHANGED state in between, and the stale batch then looks new against the newer entry
-					notDelivered, degenerate := false, false
+					notDelivered, degenerate, neverBroadcast := false, false, false
 					if det, ok := v.Detail.(map[string]any); ok {
+						// both known findings are about WHEN a broadcast entry arrives; a covering entry that its
+						// writer never handed to the gossip layer at all is neither
+						if cur0, ok1 := det["current"].(map[string]any); ok1 {
+							if prev0, ok2 := det["previous"].(map[string]any); ok2 && fmt.Sprint(cur0["instance"]) != fmt.Sprint(prev0["instance"]) {
+								neverBroadcast = true
+								for _, e := range res.Log.Snapshot() {
+									if e.Kind != "nflog-write" || e.Instance != fmt.Sprint(prev0["instance"]) {
+										continue
+									}
+									if w, ok := e.Data.(*sim.NflogWrite); ok && fmt.Sprintf("%s|%s|%s/%d", w.GroupKey, w.Receiver, w.Integ, w.Idx) == fmt.Sprint(cur0["key"]) && w.Timestamp.UnixNano() >= prev0["end_ns"].(int64) && e.T.UnixNano() <= cur0["start_ns"].(int64) {
+										neverBroadcast = false
+									}
+								}
+							}
+						}
 						// (ii) was the covering entry (written by the other instance at the end of its delivery) handed to
 						// this instance's Merge before it consulted its log?
 						cur0, ok1 := det["current"].(map[string]any)
@@ -243,6 +258,8 @@ func TestHealthyNoDuplicates(t *testing.T) {
 						}
 					}
 					switch {
+					case neverBroadcast:
+						sig += "[the covering log entry was never broadcast by the instance that sent it]"
 					case degenerate:
 						sig += "[group_interval not longer than the cluster wait of the last position]"
 					case notDelivered:
